@@ -245,3 +245,37 @@ Definition g_recur_fetch_reverse (fuel : nat) (self_freq : freq) (fetch_forward 
   | None =>
     (RRaise ValueError)
   end.
+
+(* calgebra/recurrence.py: RecurringPattern._get_safe_anchor *)
+Definition g_recur_safe_anchor {DT : Type} {DATE : Type} {TD : Type} (self_freq : freq) (self_interval : Z) (self_anchor_timestamp : option Z) (self_epoch : DT) (dt_fromtimestamp : Z -> DT) (dt_make : Z -> Z -> Z -> DT) (dt_date : DT -> DATE) (date_sub : DATE -> DATE -> TD) (td_days : TD -> Z) (td_of_days : Z -> TD) (td_of_weeks : Z -> TD) (dt_add : DT -> TD -> DT) (start_dt : DT) : res DT :=
+  let base_anchor :=
+    if (negb (is_none self_anchor_timestamp)) then
+      let base_anchor := (dt_fromtimestamp (ozd self_anchor_timestamp)) in
+      base_anchor
+    else
+      if (freq_eqb self_freq Weekly) then
+        let base_anchor := (dt_make 1969 12 29) in
+        base_anchor
+      else
+        let base_anchor := self_epoch in
+        base_anchor in
+  if (freq_eqb self_freq Daily) then
+    let delta_days := (td_days (date_sub (dt_date start_dt) (dt_date base_anchor))) in
+    let offset := (delta_days mod self_interval) in
+    let aligned_days := (delta_days - offset) in
+    (RDone (dt_add base_anchor (td_of_days aligned_days)))
+  else
+    if (freq_eqb self_freq Weekly) then
+      let delta_days := (td_days (date_sub (dt_date start_dt) (dt_date base_anchor))) in
+      let weeks := (delta_days / 7) in
+      let offset := (weeks mod self_interval) in
+      let aligned_weeks := (weeks - offset) in
+      (RDone (dt_add base_anchor (td_of_weeks aligned_weeks)))
+    else
+      if (freq_eqb self_freq Monthly) then
+        RSkip
+      else
+        if (freq_eqb self_freq Yearly) then
+          RSkip
+        else
+          (RDone start_dt).
